@@ -146,6 +146,7 @@ def run(tier, seed, rng):
                                          classes=pktprops.class_source(groups, r['group']), cls=decl.cname(r['c']),
                                          case={k: (v.hex() if isinstance(v, bytes) else v) for k, v in r.items() if k in ('raw', 'offset')},
                                          value=decl.py_value(r['value']) if 'value' in r else None, observed=oo))
+    failures += pktprops.public_api_failures(groups, records)[:20]
     # ---- search: when the model and the implementation disagree on an error stack, establish the failing field's begin on the
     # implementation alone: parse the same input with the class cut before the named field (or run); where that parse ends is
     # where the named field begins
@@ -228,6 +229,25 @@ def run(tier, seed, rng):
             failures.append(dict(kind='oracle', sig='render', what=f"a failure whose cause reads {msgs[i][:60]!r} is not reported as a PacketError that renders as a string",
                                  classes=f"class M(Packet): a = Int(1); d = Data(lambda ...: raise ValueError({msgs[i][:60]!r}))" + ("; class N(Packet): h = Int(1); m = Ref(M)" if k == 'N' else ''),
                                  observed=o))
+    # ---- a packet class that references ITSELF (linked list): one stack entry per enclosing reference, however deep, on both
+    # directions (when serializing every entry carries the same cursor and the same field and class names)
+    rsrc = ("class Node(Packet):\n    more = Int(1)\n    value = Int(1)\n    nxt = Ref(lambda **k: Node(), default=0).when(more)\n")
+    rcases, rwant = [], []
+    for depth in range(1, 7):
+        raw = b''.join(bytes([1 if i < depth - 1 else 0, 10 + i]) for i in range(depth))
+        rcases.append(dict(cls='Node', op='unpack', raw=raw[:-1].hex())); rwant.append(('unpacking', depth))
+        val = "None"
+        for i in reversed(range(depth)):
+            val = f"Node(more={1 if i < depth - 1 else 0}, value={300 if i == depth - 1 else 10 + i}, nxt={val})"
+        rcases.append(dict(cls='Node', op='pack', value={"py": val})); rwant.append(('packing', depth))
+    rres = run_impl(os.path.join(VERIF, 'harness', 'impl_pkt.py'), dict(header=decl.HEADER_PY, blocks=[dict(name='rec', src=rsrc)], modname='c12r', cases=rcases))
+    dist['recursive_class_cases'] = len(rcases)
+    for c, o, (phase, depth) in zip(rcases, rres['outcomes'], rwant):
+        st = o.get('stack', [])
+        ok = o.get('err') == phase and o.get('str_ok') and len(st) == depth and 'value' in st[0][1] and all(x[1] == 'nxt' for x in st[1:]) and all(x[2] == 'Node' for x in st)
+        if not ok:
+            failures.append(dict(kind='oracle', sig='stack-recursive', what=f"a failure {depth} levels deep in a self-referencing packet class ({phase}) must carry {depth} stack entries: the failing field then one per enclosing reference",
+                                 classes=rsrc, cls='Node', case={k: v for k, v in c.items() if k in ('raw', 'value')}, observed=o))
     # ---- finding D12: descriptor hooks run outside the wrapped region
     probe = run_impl(os.path.join(VERIF, 'harness', 'impl_d12.py'), {})
     for cls, bad, what in probe:
